@@ -11,6 +11,7 @@ import (
 	"time"
 
 	"github.com/alibaba/RedisShake/pkg/libs/atomic2"
+	"github.com/alibaba/RedisShake/pkg/libs/log"
 	conf "github.com/alibaba/RedisShake/redis-shake/configure"
 
 	cupcake "github.com/alibaba/RedisShake/pkg/libs/cupcake/rdb"
@@ -285,6 +286,7 @@ func runC11(f []string) string {
 				conf.Options.KeyExists = "rewrite"
 			}
 		}
+		log.VerifExitNow = true // as in the tool: the process ends inside log.PanicError, the entry channel is never closed
 		var rbytes atomic2.Int64
 		n := 0
 		for range utils.NewRDBLoader(bufio.NewReader(bytes.NewReader(append(unhx(f[3]), unhx(f[4])...))), &rbytes, 16) {
